@@ -187,6 +187,65 @@ fn clock_boundary(out: &mut Out) {
     out.case("clock-boundary", true);
 }
 
+/// every mailbox message of the replicated shard actor and every `pub fn` of the replicated front
+/// end, from the source the binary was built against: driven (with the counter that proves it ran
+/// in THIS run) or explained
+fn mailbox_coverage(out: &mut Out) {
+    use crate::c06msg::{non_test, read_src, repo_dir, scan_enum, scan_pub_fns};
+    let mut table: BTreeMap<String, String> = BTreeMap::new();
+    let (Some(actor), Some(state)) = (read_src("src/production/replicated_shard_actor.rs"), read_src("src/production/replicated_state.rs")) else {
+        out.violation("C08:coverage:source-scan-failed", "an anchored source file could not be read from the tree the harness was built against", json!({"tree": repo_dir()}));
+        return;
+    };
+    // name → (counter that must be > 0 in this run, or "" when explained), text
+    let how = |n: &str| -> Option<(&'static str, &'static str)> {
+        Some(match n {
+            "ReplicatedShardMessage::Execute" => ("effective-local-write", "every local command of every history"),
+            "ReplicatedShardMessage::ExecuteReadonly" => ("msg:ExecuteReadonly", "single-actor histories; must not touch the replication state"),
+            "ReplicatedShardMessage::ApplyRemoteDelta" => ("op:remote", "remote deltas / recovered deltas"),
+            "ReplicatedShardMessage::DrainPendingDeltas" => ("msg:DrainPendingDeltas", "single-actor histories; C06 message level (collect_pending_deltas)"),
+            "ReplicatedShardMessage::EvictExpired" => ("msg:EvictExpired", "moves the executor's clock only; the replication state and the Lamport clock must not change"),
+            "ReplicatedShardMessage::GetSnapshot" => ("op:snap", "every observation"),
+            "ReplicatedShardMessage::ApplyRecoveredState" => ("recover:checkpoint", "restarts that recover checkpoint values"),
+            "ReplicatedShardMessage::Shutdown" => ("op:restart", "every restart"),
+            "ReplicatedShardedState::new" | "ReplicatedShardedState::with_time_source" => ("sys:restart", "every system-level state (new delegates to with_time_source)"),
+            "ReplicatedShardedState::with_gossip_actor" | "ReplicatedShardedState::with_gossip_actor_and_time" => ("", "C06 message level (sharded_state with the actor backend)"),
+            "ReplicatedShardedState::set_delta_sink" => ("sys:restart", "how the system histories capture the shipped deltas"),
+            "ReplicatedShardedState::clear_delta_sink" | "ReplicatedShardedState::has_streaming_persistence" | "ReplicatedShardedState::set_wal_handle" | "ReplicatedShardedState::clear_wal_handle" => ("", "persistence wiring: C09 / C11 / C12"),
+            "ReplicatedShardedState::execute" => ("sys:restart", "every system-level command; the multi-key front end is C06's scenario (known finding C06:front-end:multi-key-routed-by-first-key)"),
+            "ReplicatedShardedState::apply_remote_deltas" => ("sys:op:remote", "gossip from a peer in the system histories; second half of apply_recovered_state"),
+            "ReplicatedShardedState::apply_recovered_state" => ("sys:restart", "every split of every system history"),
+            "ReplicatedShardedState::collect_pending_deltas" => ("", "C06 message level (incl. a burst over MAX_PENDING_DELTAS on one shard)"),
+            "ReplicatedShardedState::evict_expired_all_shards" => ("sys:evict", "system sweep: must leave every shard's replication state and clock alone; NO caller in the binaries (the TTL manager serves ShardedActorState only): on a replicated node the executor's clock never moves, a TTL never fires"),
+            "ReplicatedShardedState::snapshot_state" => ("sys:restart", "every observation of the system histories"),
+            "ReplicatedShardedState::key_count" => ("sys:evict", "system sweep (= number of keys of snapshot_state)"),
+            "ReplicatedShardedState::time_source" | "ReplicatedShardedState::gossip_backend" | "ReplicatedShardedState::get_gossip_state" | "ReplicatedShardedState::gossip_actor_handle" | "ReplicatedShardedState::is_actor_based" | "ReplicatedShardedState::config" | "ReplicatedShardedState::num_shards" => ("", "accessors (the gossip ones are used by C06's message level)"),
+            _ => return None,
+        })
+    };
+    let mut names: Vec<String> = scan_enum(non_test(&actor), "ReplicatedShardMessage").into_iter().map(|v| format!("ReplicatedShardMessage::{}", v)).collect();
+    names.extend(scan_pub_fns(&state, "ReplicatedShardedState").into_iter().map(|f| format!("ReplicatedShardedState::{}", f)));
+    if names.iter().filter(|n| n.starts_with("ReplicatedShardMessage::")).count() < 8 || names.len() < 20 {
+        out.violation("C08:coverage:source-scan-failed", "the source scan found fewer mailbox messages / front-end functions than the files are known to hold", json!({"found": names}));
+    }
+    for n in names {
+        match how(&n) {
+            Some((counter, text)) => {
+                let ran = counter.is_empty() || out.dist.get(counter).copied().unwrap_or(0) > 0;
+                table.insert(n.clone(), format!("{}{}", text, if counter.is_empty() { String::new() } else { format!(" [{} = {}]", counter, out.dist.get(counter).copied().unwrap_or(0)) }));
+                if !ran {
+                    out.violation(&format!("C08:coverage:not-driven-in-this-run:{}", n), "a mailbox message / front-end function that the harness claims to drive did not run in this run (silently skipped)", json!({"name": n, "counter": counter}));
+                }
+            }
+            None => {
+                table.insert(n.clone(), "UNACCOUNTED".into());
+                out.violation(&format!("C08:coverage:mailbox-message-not-driven:{}", n), "a mailbox message of the replicated shard actor / a public function of the replicated front end exists in the source the harness was built against, but the harness neither drives it nor says why not", json!({"name": n}));
+            }
+        }
+    }
+    out.extra.insert("replicated_actor_and_front_end_coverage(derived from the source)".into(), json!(table));
+}
+
 pub fn run(a: &Args) {
     let mut out = Out::new(&a.out);
     let mut rng = Rng::new(a.seed);
@@ -232,6 +291,7 @@ pub fn run(a: &Args) {
             system_history(&mut out, &mut r, None).await;
         }
     });
+    mailbox_coverage(&mut out);
     // coverage of the Command enum through the replicated actor / state
     {
         let mut rows: BTreeMap<String, serde_json::Value> = BTreeMap::new();
@@ -332,6 +392,29 @@ async fn system_sweep(out: &mut Out, rng: &mut Rng) {
             }
         }
     }
+    // evict_expired_all_shards / key_count: the eviction moves the executors' clocks only — the
+    // replication state of every shard (what is gossiped, checkpointed, recovered) and the stamps of
+    // the next writes must be as if it had not happened
+    let before = a.snapshot_state().await;
+    let kc = a.key_count().await;
+    let evicted = a.evict_expired_all_shards().await;
+    let after = a.snapshot_state().await;
+    out.count("sys:evict");
+    out.count_n("sys:evict:evicted", evicted as u64);
+    let canon = |m: &HashMap<String, ReplicatedValue>| snap_sorted(m).iter().map(|(k, v)| format!("{} {}", k, v.show())).collect::<Vec<_>>();
+    if canon(&before) != canon(&after) || kc != before.len() {
+        out.violation("C08:node:evict-changed-replication-state", "evict_expired_all_shards changed the replication state (or key_count disagrees with snapshot_state)", json!({"history": hist.clone(), "key_count": kc, "snapshot_keys": before.len()}));
+    }
+    let k = rng.pick(&keys).clone();
+    let _ = a.execute(Command::set(k.clone(), SDS::new(b"after-evict".to_vec()))).await;
+    for d in arx.drain() {
+        let m = MRv::from_real(&d.value);
+        if let Some(o) = last.get(&shard_of(&d.key)) {
+            if !(*o < (m.t, m.r)) {
+                out.violation("C08:issued-not-increasing", &format!("SET after evict_expired_all_shards acknowledged with stamp {:?} after {:?}", (m.t, m.r), o), json!({"history": hist.clone()}));
+            }
+        }
+    }
     out.case(&format!("SYS-SWEEP:{}", hist.join(",")), true);
 }
 
@@ -411,7 +494,7 @@ async fn history(out: &mut Out, rng: &mut Rng, mode: Mode, pool: &[Command]) {
             script[i]
         } else {
             if i as u64 >= steps && forced.is_empty() { break; }
-            if !forced.is_empty() && (i % 3 == 2 || i as u64 >= steps) { 20 } else { rng.below(13) as u8 }
+            if !forced.is_empty() && (i % 3 == 2 || i as u64 >= steps) { 20 } else { rng.below(14) as u8 }
         };
         i += 1;
         let key = if corpus { "k".to_string() } else { rng.pick(&KEYS).to_string() };
@@ -561,6 +644,39 @@ async fn history(out: &mut Out, rng: &mut Rng, mode: Mode, pool: &[Command]) {
                             e.push((s, "local"));
                         }
                     }
+                }
+                continue;
+            }
+            13 => {
+                // the other mailbox messages of the actor: none of them may touch the replication
+                // state or the Lamport clock (the model has no op for them: the next stamps and the
+                // final snapshot must come out as if they had not happened)
+                match rng.below(3) {
+                    0 => {
+                        let r = node.h.execute_readonly(Command::Get(key.clone())).await;
+                        let _ = r;
+                        out.count("msg:ExecuteReadonly");
+                        text.push_str("READONLY;");
+                    }
+                    1 => {
+                        // EvictExpired moves the EXECUTOR's clock (keys with a TTL may vanish from what is
+                        // served); the replication state keeps them — time-dependent reads are outside C08
+                        let t = redis_sim::simulator::VirtualTime::from_millis(rng.below(3) * 30_000);
+                        let n = node.h.evict_expired(t).await;
+                        out.count("msg:EvictExpired");
+                        out.count_n("msg:EvictExpired:evicted", n as u64);
+                        text.push_str("EVICT;");
+                    }
+                    _ => {
+                        let d = node.h.drain_pending_deltas().await;
+                        out.count("msg:DrainPendingDeltas");
+                        out.count_n("msg:DrainPendingDeltas:drained", d.len() as u64);
+                        text.push_str("DRAIN;");
+                    }
+                }
+                let after = node.h.get_snapshot().await;
+                if snap_sorted(&after).iter().map(|(k, m)| format!("{} {}", k, m.show())).collect::<Vec<_>>() != snap_sorted(&before).iter().map(|(k, m)| format!("{} {}", k, m.show())).collect::<Vec<_>>() {
+                    out.violation("C08:mailbox:non-writing-message-changed-replication-state", "ExecuteReadonly / EvictExpired / DrainPendingDeltas changed the replication state of the shard", json!({"history": text.clone()}));
                 }
                 continue;
             }
@@ -968,7 +1084,18 @@ async fn system_history(out: &mut Out, rng: &mut Rng, corpus: Option<u8>) {
         } else {
             Some(snap.clone())
         };
-        let deltas: Vec<ReplicationDelta> = own[*n_own..].iter().map(|i| i.delta.clone()).collect();
+        // the deltas recovered from segments / WAL: those after the checkpoint — sometimes also
+        // older ones (a WAL that was not truncated at the checkpoint: overlap), sometimes in
+        // another order than they were issued (segments and WAL entries are merged by the recovery)
+        let start = if corpus.is_none() && *n_own > 0 && rng.chance(1, 3) { *n_own - rng.range(1, *n_own as u64) as usize } else { *n_own };
+        if start < *n_own {
+            out.count("sys:recovery:deltas-overlap-checkpoint");
+        }
+        let mut deltas: Vec<ReplicationDelta> = own[start..].iter().map(|i| i.delta.clone()).collect();
+        if corpus.is_none() && deltas.len() > 1 && rng.chance(1, 4) {
+            rng.shuffle(&mut deltas);
+            out.count("sys:recovery:deltas-reordered");
+        }
         // recovered stamps per shard, with provenance; the op line (checkpoint in ITS iteration order)
         let mut recovered: BTreeMap<usize, Vec<(St, &'static str, String)>> = BTreeMap::new();
         // what a peer holds that has everything the node recovered: the merge of it, per key
